@@ -1711,6 +1711,10 @@ func (t *Topic) thisUserSub(sess *Session, pkt *ClientComMessage, asUid types.Ui
 			if !oldWant.IsJoiner() {
 				// Set permissions NO WORSE than default, but possibly better (admin or owner banned himself).
 				userData.modeWant = userData.modeGiven | t.accessFor(asLvl)
+				if t.owner != asUid {
+					// Ownership is obtained only by explicitly accepting the transfer.
+					userData.modeWant &^= types.ModeOwner
+				}
 			}
 		} else if userData.modeWant != modeWant {
 			// The user has provided a new modeWant and it' different from the one before
